@@ -300,7 +300,8 @@ def _hidden_ns(shape: str) -> dict[str, Any]:
     """Namespace entries every spy class gets: the things a template must never reach."""
 
     def __init__(self, idx: int = 0, **kw: Any) -> None:  # noqa: N807
-        self.secret = _canary("attr", "secret", shape)
+        # HIDDEN_VARIANT: same object through the documented protocol, different hidden state
+        self.secret = _canary("attr", "secret", shape) + ("_" + "Z" * 30000 if HIDDEN_VARIANT[0] else "")
         self._private = _canary("attr", "private", shape)
         self.password = _canary("attr", "password", shape)
         self.idx = idx
@@ -398,6 +399,7 @@ async def _coro_result(shape: str) -> str:
     return _canary("awaitresult", "ctx", shape)
 
 
+HIDDEN_VARIANT = [0]   # set by the runner around data construction (non-interference twin)
 CLASSES: dict[str, type] = {}
 FACTORIES: dict[str, Any] = {}
 
